@@ -257,6 +257,20 @@ func (c03) Gen(r *core.Rand, tier string) interface{} {
 				k = 600
 			}
 			op = C03Op{Op: which, Data: c03Data(r, k)}
+			if prev := map[bool]core.Hex{true: cur.Ext, false: cur.Priv}[which == "ext"]; len(prev) >= 2 && r.Chance(1, 4) {
+				// a value that is related to the one in place: the old one with a short tail appended
+				// (descriptors added one at a time), a prefix of it, the old one moved by a byte
+				var d core.Hex
+				switch r.Intn(4) {
+				case 0, 1:
+					d = append(append(core.Hex(nil), prev...), r.Bytes(r.Range(1, len(prev)-1))...)
+				case 2:
+					d = append(core.Hex(nil), prev[:r.Range(1, len(prev)-1)]...)
+				default:
+					d = append(append(core.Hex(nil), prev[1:]...), byte(r.Intn(256)))
+				}
+				op.Data = d
+			}
 		case 13:
 			if r.Chance(1, 4) {
 				op = C03Op{Op: "copy_self"} // SetAdaptationField with the packet's own field
@@ -544,6 +558,7 @@ func (c03) Exec(script interface{}, c *core.Ctx) {
 			qual += ":L183"
 		}
 		var cerr error
+		srcChanged := ""
 		name := "AdaptationField." + op.Op
 		okc := c.Call(name, func() {
 			switch op.Op {
@@ -593,12 +608,21 @@ func (c03) Exec(script interface{}, c *core.Ctx) {
 						src = AFSpec{L: src.L}
 					}
 					sp, _ := buildAFPacket(src, s.Salt+1)
+					spWas := sp
 					saf, _ := sp.AdaptationField()
 					cerr = pkt.SetAdaptationField(saf)
+					if sp != spWas {
+						srcChanged = diffAt(sp[:], spWas[:])
+					}
 				}
 			}
 		})
 		if !okc {
+			return
+		}
+		if srcChanged != "" {
+			// the packet the field is copied FROM is only read, whether the copy is honoured or not
+			c.Fail("source_untouched", "copy_changed_the_packet_it_copies_from", srcChanged, "188 bytes unchanged")
 			return
 		}
 		opName := op.Op
